@@ -618,4 +618,9 @@ def check_C14(tier):
     from . import engine_big
 
     engine_big.check(chk, "C14", tier, cyclic=True)
+    # ... and over the real commands: a cycle closed through every result parameter of every built-in command (MPValidate.InitCycles)
+    from . import validate as V
+    from . import decl
+
+    V.run_check(chk, "C14", tier, {"C14"}, [("csv", decl.CSV_LIBS + ("vextra",))] + ([("netcdf", decl.NETCDF_LIBS)] if tier == "thorough" else []), init="InitCycles")
     return chk.finish()
